@@ -76,20 +76,41 @@ def run(prog: Program, res: Result) -> None:
         gen = comp.generators[0]
         # the futures list goes, unmodified, to get_pool_results whose result is stored wholesale
         st = parent(comp)
-        fut = st.targets[0].id if isinstance(st, ast.Assign) and isinstance(st.targets[0], ast.Name) else None
+        fut = None
+        if isinstance(st, ast.Assign) and isinstance(st.targets[0], ast.Name):
+            fut = st.targets[0].id
+        elif isinstance(st, ast.AnnAssign) and isinstance(st.target, ast.Name):
+            fut = st.target.id
         uses = [m for m in own_nodes(fi) if isinstance(m, ast.Name) and m.id == fut and isinstance(m.ctx, ast.Load)] if fut else []
-        oku = len(uses) == 1 and isinstance(parent(uses[0]), ast.Call) and dotted(parent(uses[0]).func) == "get_pool_results" \
-            and len(parent(uses[0]).args) == 1
+
+        def gather_call(u):
+            p_ = parent(u)
+            if isinstance(p_, ast.keyword):
+                p_ = parent(p_)
+            if isinstance(p_, ast.Call) and dotted(p_.func) == "get_pool_results" and len(p_.args) + len(p_.keywords) == 1:
+                return p_
+            return None
+        direct = parent(comp) if isinstance(parent(comp), (ast.Call, ast.keyword)) else None
+        if fut is None and direct is not None:
+            uses = [comp]
+        oku = len(uses) == 1 and gather_call(uses[0]) is not None
         res.ob(oku, None, key + "::gather")
         if not oku:
             res.add(Finding(P, "C11.R1-one-future-per-item", key + "::gather", loc,
                             f"the futures of `{norm(n, 60)}` are not handed, all and only, to get_pool_results"))
             continue
-        gcall = parent(uses[0])
+        gcall = gather_call(uses[0])
         gst = parent(gcall)
-        okg = isinstance(gst, ast.Assign) and gst.value is gcall and len(gst.targets) == 1
+        if isinstance(gst, ast.AnnAssign) and gst.value is gcall:
+            gst = ast.copy_location(ast.Assign(targets=[gst.target], value=gst.value), gst)
+        if isinstance(gst, ast.Return):
+            res.ob(True, None, key + "::consumer")      # handed back wholesale to the caller
+            okg = True
+            gst = None
+        else:
+            okg = isinstance(gst, ast.Assign) and gst.value is gcall and len(gst.targets) == 1
         rname = None
-        if okg:
+        if okg and gst is not None:
             t = gst.targets[0]
             if dotted(t) == "self._population":
                 rname = None
@@ -102,8 +123,8 @@ def run(prog: Program, res: Result) -> None:
                 okg = False
         res.ob(okg, None, key + "::consumer")
         if not okg:
-            res.add(Finding(P, "C11.R2-no-positional-use-of-gathered-results", key + "::consumer", f"{fi.module.relpath}:{gst.lineno}",
-                            f"the completion-ordered result of get_pool_results is used other than wholesale (`{norm(gst, 80)}`): "
+            res.add(Finding(P, "C11.R2-no-positional-use-of-gathered-results", key + "::consumer", f"{fi.module.relpath}:{gcall.lineno}",
+                            f"the completion-ordered result of get_pool_results is used other than wholesale (`{norm(parent(gcall), 80)}`): "
                             f"indexing or zipping it against a submission-ordered list re-pairs agents by schedule"))
         # R4 stream distinctness: does an argument vary per submission?
         loopvars = {x.id for x in ast.walk(gen.target) if isinstance(x, ast.Name)}
